@@ -554,11 +554,14 @@ func (p *pathRun) modInverse(fr *frame, recv value, g, n *smt.Term) value {
 		p.targetPanic(fr.caller, "division by zero")
 	}
 	gc := p.gcdTerm(g, n)
-	if !p.fork(c.Eq(gc, c.IntC64(1)), "ModInverse coprime") {
+	if p.genericCoins(c.Not(c.Eq(gc, c.IntC64(1))), "inverted-value-is-a-unit") {
+		// all-honest run: a non-invertible value is a coin event (excluded, counted)
+	} else if !p.fork(c.Eq(gc, c.IntC64(1)), "ModInverse coprime") {
 		return (*value)(nil)
 	}
 	an := c.Abs(n)
 	inv := c.Fresh("inv", smt.Int)
+	p.markNonNeg(inv)
 	p.axiom("inverse-def", c.And(c.Ge(inv, c.IntC64(0)), c.Lt(inv, an), c.Eq(c.Mod(c.Mul(g, inv), an), c.Mod(c.IntC64(1), an))))
 	p.registerInverse(inv, g, an)
 	return p.setBig(fr, recv, bigval{t: inv})
